@@ -153,7 +153,7 @@ def subchecks():
             name="expand",
             run_case=run_case,
             strategy=lambda tier: packver_scenario(tier),
-            examples={"quick": 2500, "thorough": 25000},
+            examples={"quick": 2500, "thorough": 80000},
             case_timeout=30.0,
         )
     ]
